@@ -45,6 +45,7 @@ func init() {
 		var c c14Case
 		if json.Unmarshal(raw, &c) == nil {
 			runC14Case(id, &c)
+			c14Cleanup()
 		}
 	}}
 }
@@ -153,6 +154,20 @@ func runC14(seed uint64, n int, tier string) {
 	_, _ = c14SharedScript(&c14Case{Transport: "system"})
 	_, _, _ = c14ClientKey()
 	parallel(len(cases), func(i int) { runC14Case(caseID("C14", seed, i), cases[i]) })
+	c14Cleanup()
+}
+
+// c14Cleanup removes the per-process files (client key, shared scripts).
+func c14Cleanup() {
+	if c14KeyPath != "" {
+		_ = os.Remove(c14KeyPath)
+	}
+	if c14ScriptDir != "" {
+		_ = os.RemoveAll(c14ScriptDir)
+	}
+	if c14Rogue != nil {
+		c14Rogue.close()
+	}
 }
 
 // ---------------------------------------------------------------------------------------------
@@ -662,6 +677,11 @@ func runC14Case(id string, c *c14Case) {
 	cs.Obs = "sys " + hxStrs(argv)
 
 	// ---- oracle, straight from the property
+	for _, a := range argv {
+		if strings.Contains(a, c.Password) {
+			c14Fail(cs, "C14:password-in-argv", fmt.Sprintf("password on the command line: %q", argv))
+		}
+	}
 	if len(argv) < 3 || argv[0] != host {
 		c14Fail(cs, "C14:host", fmt.Sprintf("argv[0] is not the host %q: %q", host, argv))
 	}
@@ -706,11 +726,6 @@ func runC14Case(id string, c *c14Case) {
 	}
 	if len(argv) < len(tail) || strings.Join(argv[len(argv)-len(tail):], "\x00") != strings.Join(tail, "\x00") {
 		c14Fail(cs, "C14:extra", fmt.Sprintf("argv does not end with the extra arguments %q: %q", tail, argv))
-	}
-	for _, a := range argv {
-		if strings.Contains(a, c.Password) {
-			c14Fail(cs, "C14:password-in-argv", fmt.Sprintf("password on the command line: %q", argv))
-		}
 	}
 
 	if c.Transport == "system" {
